@@ -34,7 +34,9 @@ def entries(rng, reps):
                   "fr %s sign %s %s %s %s %s" % (suite, share(0), nonce(0), w["commitment"][0].hex(), o["msg"].hex(), w["commitment_list"][0].hex()),
                   "fr %s gsign !%s %s %s" % (suite, w["group_sk"][0].hex(), tape[:16], o["msg"].hex()),
                   "fr %s gsign_rand !%s !%s %s" % (suite, w["group_sk"][0].hex(), tape[:64], o["msg"].hex()),
-                  "fr %s nonce_comm %s" % (suite, nonce(0))]
+                  "fr %s nonce_comm %s" % (suite, nonce(0)),
+                  # a share holder checks its (secret) share against the public VSS commitments
+                  "fr %s verify_split %s %s" % (suite, share(r % len(w["share"])), w["vss_list"][0].hex())]
         groups["frost:" + suite] = (L, None)
     L = []
     for sname, m in (("sha256_m32", 32), ("sha256_m24", 24), ("shake_m24", 24), ("shake_m32", 32)):
